@@ -161,6 +161,12 @@ def oracle(r: dict) -> list:
             bad.append(f'object {i}: get_next({dt}) answered {a}, after other queries {b}')
         if c is not None and a != c and a[0] == 'ok' and c[0] == 'ok':
             bad.append(f'object {i}: get_next({dt}) answered {a}, a freshly built equal trigger answers {c}')
+        if a != orig and a[0] == 'ok' and orig[0] == 'ok':
+            bad.append(f'object {i}: a copy answered get_next({dt}) = {a}, the object itself {orig}')
+    for i, dt, x, y in r.get('late', []):
+        if x != y and x[0] == 'ok' and y[0] == 'ok':
+            bad.append(f'object {i}: a copy taken after the object had been queried answers get_next({dt}) = {x}, '
+                       f'the object itself {y}')
     return bad
 
 
